@@ -195,6 +195,9 @@ class ExprMixin:
             return self.builtins[name]
         if self.spec_depth:
             raise SpecError(f"spec name '{name}' not resolvable in {self.cur_func}")
+        import builtins as _b
+        if hasattr(_b, name):
+            raise Unsupported(f"python builtin '{name}' is not modelled", node)
         self.oblige(st, f"defined:{name}", "defined", z3.BoolVal(False), node,
                     note=f"name '{name}' is not bound (no local, no module-level binding, no builtin)")
         raise PathEnd("unbound")
@@ -216,6 +219,9 @@ class ExprMixin:
                     return bm if isinstance(bm, list) else [(st, bm)]
                 if self.spec_depth:
                     raise SpecError(f"no attribute {h.cls}.{attr}")
+                if h.typ is not None and self.class_assigns(h.cls, attr):
+                    # the class does set this field somewhere: the sidecar's field list is out of date, not the code
+                    raise Unsupported(f"field {attr} of {h.cls.split('::')[-1]} is not declared in the sidecar contract", node)
                 self.oblige(st, f"attr:{attr}", "defined", z3.BoolVal(False), node,
                             note=f"{h.cls} object has no attribute '{attr}' on this path")
                 raise PathEnd("attr")
@@ -574,6 +580,43 @@ class ExprMixin:
             return r if isinstance(r, list) else [(st, r)]
         raise Unsupported(f"subscript on {b!r}", node)
 
+    def decide(self, st, cond, timeout_ms=120):
+        """True / False when the path condition settles `cond` quickly, else None (used only to simplify terms)"""
+        c = z3.simplify(cond)
+        if z3.is_true(c): return True
+        if z3.is_false(c): return False
+        if self.spec_depth:
+            return None
+        sol = z3.Solver()
+        sol.set("timeout", timeout_ms)
+        for p in st.pc:
+            if not z3.is_quantifier(p):
+                sol.add(p)
+        sol.push()
+        sol.add(z3.Not(c))
+        if sol.check() == z3.unsat:
+            return True
+        sol.pop()
+        sol.add(c)
+        if sol.check() == z3.unsat:
+            return False
+        return None
+
+    def sif(self, st, c, a, b):
+        d = self.decide(st, c)
+        if d is True: return a
+        if d is False: return b
+        return z3.If(c, a, b)
+
+    def named(self, st, term, label):
+        """give a compound integer term a name (definitional constant) to keep later formulas small"""
+        term = z3.simplify(term)
+        if self.spec_depth or z3.is_int_value(term) or z3.is_const(term):
+            return term
+        c = z3.Int(uid(label))
+        st.assume(c == term)
+        return c
+
     def slice(self, base, lo, hi, step, st, node):
         b = self.deref(base, st)
         if isinstance(b, VStr) and b.s is not None:
@@ -594,19 +637,21 @@ class ExprMixin:
             raise Unsupported(f"slice of {b!r}", node)
         n = b.len
 
+        def clamp(t):
+            neg = self.decide(st, t < 0)
+            if neg is False:
+                return self.sif(st, t > n, n, t)
+            if neg is True:
+                return self.sif(st, t + n < 0, z3.IntVal(0), t + n)
+            return z3.If(t < 0, z3.If(t + n < 0, 0, t + n), z3.If(t > n, n, t))
+
         def bound(v, default):
             v = self.deref(v, st)
             if isinstance(v, VNone):
                 return default
             if isinstance(v, VOpt):
-                t = to_int(v.inner)
-                t = z3.If(t < 0, z3.If(t + n < 0, 0, t + n), z3.If(t > n, n, t))
-                return z3.If(v.isnone, default, t)
-            t = to_int(v)
-            if z3.is_int_value(t):
-                c = t.as_long()
-                return z3.If(t > n, n, t) if c >= 0 else z3.If(t + n < 0, 0, t + n)
-            return z3.If(t < 0, z3.If(t + n < 0, 0, t + n), z3.If(t > n, n, t))
+                return self.sif(st, v.isnone, default, clamp(to_int(v.inner)))
+            return clamp(to_int(v))
         stp = self.deref(step, st)
         if isinstance(stp, VNone):
             stp_t = z3.IntVal(1)
@@ -616,11 +661,11 @@ class ExprMixin:
         lo_t = bound(lo, z3.IntVal(0))
         hi_t = bound(hi, n)
         if z3.is_int_value(stp_t) and stp_t.as_long() == 1:
-            ln = z3.If(hi_t > lo_t, hi_t - lo_t, 0)
-            res = VSeq(z3.simplify(ln), lambda k: b.elem(lo_t + k), b.etype)
+            ln = self.sif(st, hi_t > lo_t, hi_t - lo_t, z3.IntVal(0))
+            res = VSeq(self.named(st, ln, "slicelen"), lambda k: b.elem(lo_t + k), b.etype)
         else:
-            ln = z3.If(hi_t > lo_t, (hi_t - lo_t + stp_t - 1) / stp_t, 0)
-            res = VSeq(ln, lambda k: b.elem(lo_t + k * stp_t), b.etype)
+            ln = self.sif(st, hi_t > lo_t, (hi_t - lo_t + stp_t - 1) / stp_t, z3.IntVal(0))
+            res = VSeq(self.named(st, ln, "slicelen"), lambda k: b.elem(lo_t + k * stp_t), b.etype)
         if b.concrete is not None and all(z3.is_int_value(z3.simplify(x)) for x in (lo_t, hi_t, stp_t)):
             l, h, s_ = (z3.simplify(x).as_long() for x in (lo_t, hi_t, stp_t))
             res = VSeq.of(b.concrete[l:h:s_], b.etype)
@@ -742,6 +787,9 @@ class ExprMixin:
                 and isinstance(node.args[0], ast.Starred):
             out = []
             for s, v in self.ev(node.args[0].value, st):
+                if isinstance(self.deref(v, s), VAbs) and hasattr(self.deref(v, s), "zip_star"):
+                    out.append((s, self.deref(v, s).zip_star(s, self, node)))
+                    continue
                 sq = self.as_seq(v, s, node)
                 if not isinstance(sq.etype, TTuple):
                     raise Unsupported("zip(*x) over non-tuple rows", node)
